@@ -169,13 +169,16 @@ func (pxy *BaseProxy) HandleTCPWorkConnection(workConn net.Conn, m *msg.StartWor
 		if m.DstAddr == "" {
 			m.DstAddr = "127.0.0.1"
 		}
-		srcAddr, _ := net.ResolveTCPAddr("tcp", net.JoinHostPort(m.SrcAddr, strconv.Itoa(int(m.SrcPort))))
-		dstAddr, _ := net.ResolveTCPAddr("tcp", net.JoinHostPort(m.DstAddr, strconv.Itoa(int(m.DstPort))))
-		connInfo.SrcAddr = srcAddr
-		connInfo.DstAddr = dstAddr
+		srcAddr, srcErr := net.ResolveTCPAddr("tcp", net.JoinHostPort(m.SrcAddr, strconv.Itoa(int(m.SrcPort))))
+		dstAddr, dstErr := net.ResolveTCPAddr("tcp", net.JoinHostPort(m.DstAddr, strconv.Itoa(int(m.DstPort))))
+		// an address that does not resolve must not end up as a typed nil in the interface values below
+		if srcErr == nil && dstErr == nil {
+			connInfo.SrcAddr = srcAddr
+			connInfo.DstAddr = dstAddr
+		}
 	}
 
-	if baseCfg.Transport.ProxyProtocolVersion != "" && m.SrcAddr != "" && m.SrcPort != 0 {
+	if baseCfg.Transport.ProxyProtocolVersion != "" && connInfo.SrcAddr != nil && connInfo.DstAddr != nil {
 		h := &pp.Header{
 			Command:         pp.PROXY,
 			SourceAddr:      connInfo.SrcAddr,
